@@ -280,18 +280,41 @@ def rule_wiring(chk, prog):
         bad = "expected one place where unlisted nodes are added to the root cluster, found %d" % len(ins)
     else:
         pc = path_condition(fn, ins[0], inline=False)
-        ats = [a for a in atoms(pc) if a not in ("(clusterHierarchy && !clusterHierarchy.flat())", "clusterHierarchy", "clusterHierarchy.flat()")
-               and "nodesInClusterCounts.size()" not in a]
         import re as _re
-        cnt = [a for a in ats if _re.fullmatch(r"\(?(count\s*(==|!=|<|>|<=|>=)\s*\d+|\d+\s*(==|!=|<|>|<=|>=)\s*count)\)?", a)]
-        other = [a for a in ats if a not in cnt]
-        zero = [a for a in cnt if a.replace(" ", "").strip("()") in ("count==0", "0==count")]
-        sal = single_assignment_locals(fn)
-        if other:
-            bad = "a node no cluster lists is added to the root cluster only under the further condition(s) %s" % other[:2]
-        elif not zero or not entails(pc, ("atom", zero[0])):
-            bad = "the test for `listed by no cluster` is %s, not count == 0" % cnt
-        elif "nodesInClusterCounts[i]" not in norm(ins[0] and [d for d in fn.nodes() if d.get("k") == "VarDecl" and d.get("name") == "count"][0].get("init")):
+        import itertools as _it
+        from ..rules.guards import evalf
+        outer = ("(clusterHierarchy && !clusterHierarchy.flat())", "clusterHierarchy", "clusterHierarchy.flat()")
+        all_atoms = sorted(atoms(pc))
+        cnt_re = _re.compile(r"^\(?\s*(?:count\s*(==|!=|<=|>=|<|>)\s*(\d+)|(\d+)\s*(==|!=|<=|>=|<|>)\s*count)\s*\)?$")
+        ops = {"==": lambda x, y: x == y, "!=": lambda x, y: x != y, "<": lambda x, y: x < y, ">": lambda x, y: x > y,
+               "<=": lambda x, y: x <= y, ">=": lambda x, y: x >= y}
+
+        def cnt_val(atom, c):
+            m = cnt_re.match(atom)
+            if not m:
+                return None
+            if m.group(1):
+                return ops[m.group(1)](c, int(m.group(2)))
+            return ops[m.group(4)](int(m.group(3)), c)
+        free = [a for a in all_atoms if cnt_val(a, 0) is None and a not in outer and "nodesInClusterCounts.size()" not in a]
+        # the insert must be reached exactly when count == 0, whatever the other conditions say (count atoms are evaluated arithmetically,
+        # so `if (count > 1) ... else if (count == 0)` and similar rewrites are the same test)
+        witness = None
+        for c in (0, 1, 2, 3):
+            for vals in _it.product((False, True), repeat=len(free)):
+                env = {a: (".flat()" not in a) for a in all_atoms}      # the enclosing `hierarchy exists and is not flat` test and the loop condition hold
+                env.update(dict(zip(free, vals)))
+                for a in all_atoms:
+                    cv = cnt_val(a, c)
+                    if cv is not None:
+                        env[a] = cv
+                if evalf(pc, env) != (c == 0):
+                    witness = witness or (c, dict(zip(free, vals)))
+        if witness:
+            c, env = witness
+            bad = ("with count = %d and %s the node is %s the root cluster; documented: exactly the nodes no cluster lists (count == 0) join it"
+                   % (c, env or "no further condition", "added to" if c != 0 else "NOT added to"))
+        elif "nodesInClusterCounts[i]" not in norm([d for d in fn.nodes() if d.get("k") == "VarDecl" and d.get("name") == "count"][0].get("init")):
             bad = "`count` is not the number of clusters listing node i"
         elif norm(call_args(ins[0])[0]) != "i":
             bad = "`%s` is added to the root cluster instead of the unlisted node i" % norm(call_args(ins[0])[0])
